@@ -36,7 +36,18 @@ def one(name):
         rc = sh("cd %s && VERIF_SUBJECT_SRC=%s/src timeout 2400 ./check %s --tier quick" % (VERIF, base, prop))
         caught = rc.returncode == 1 and ("VIOLATION property=%s" % prop) in rc.stdout
         first = [l.strip()[:200] for l in rc.stdout.splitlines() if l.strip().startswith("clause=")][:1]
-        return name, prop, "CAUGHT" if caught else "MISSED rc=%d" % rc.returncode, "%.0fs %s" % (time.time() - t0, first[0] if first else rc.stderr[-200:])
+        verdict = "CAUGHT" if caught else "MISSED rc=%d" % rc.returncode
+        mp = os.path.join(d, "meta.json")
+        try:
+            meta = json.load(open(mp))
+        except Exception:
+            meta = {}
+        head = sh("git -C %s rev-parse --short HEAD" % REPO).stdout.strip()
+        meta["regression"] = {"repo_head": head, "verdict": verdict, "exit": rc.returncode, "first": first,
+                              "ran": "patch applied to a scratch copy of /repo/src (VERIF_SUBJECT_SRC); ./check %s --tier quick" % prop}
+        with open(mp, "w") as f:
+            json.dump(meta, f, indent=1)
+        return name, prop, verdict, "%.0fs %s" % (time.time() - t0, first[0] if first else rc.stderr[-200:])
     finally:
         shutil.rmtree(base, ignore_errors=True)
 
